@@ -43,3 +43,41 @@ package polynomials
 //@   property C20
 //@   purefn
 //@   ensures result == p.coeffs
+
+// ---------------------------------------------------------------- polynomials "in the exponent" (C20)
+// ghorner(c, x, i) is the Horner value of the module-valued polynomial with coefficients c[i:] at the scalar x:
+//   ghorner(c, x, len(c)-1) = c[len(c)-1],   ghorner(c, x, i) = [x] ghorner(c, x, i+1) + c[i].
+// It has the same shape as horner above, so evaluation in the exponent is the term-by-term image of scalar evaluation
+// under lifting; LiftPolynomial lifts coefficient by coefficient with the SAME base element.
+//@ ghost func ghorner(c []V, x V, i Int) V
+//@ theory ghorner
+//@ axiom GHornerLast: forall c []V, x V :: len(c) > 0 ==> ghorner(c, x, len(c) - 1) == c[len(c) - 1]
+//@ axiom GHornerStep: forall c []V, x V, i Int :: 0 <= i && i < len(c) - 1 ==> ghorner(c, x, i) == gadd(gsmul(x, ghorner(c, x, i + 1)), c[i])
+//@ end
+
+//@ func (*ModuleValuedPolynomial).Eval
+//@   property C20
+//@   bind ME group, S ring
+//@   uses ghorner
+//@   nopanic
+//@   requires len(p.coeffs) > 0
+//@   ensures result == ghorner(p.coeffs, at, 0)
+//@   loop for(i >= 0)
+//@     invariant -1 <= i && i <= len(p.coeffs) - 2
+//@     invariant out == ghorner(p.coeffs, at, i + 1)
+
+//@ func LiftPolynomial
+//@   property C20
+//@   bind ME group, RE ring
+//@   nopanic
+//@   requires poly != nil
+//@   ensures err == nil && result != nil && len(result.coeffs) == len(poly.coeffs)
+//@   ensures forall t int :: 0 <= t && t < len(poly.coeffs) ==> result.coeffs[t] == baseElem.ScalarOp(poly.coeffs[t])
+//@   loop range(poly.coeffs)
+//@     invariant len(coeffs) == len(poly.coeffs)
+//@     invariant forall t int :: 0 <= t && t < i ==> coeffs[t] == baseElem.ScalarOp(poly.coeffs[t])
+
+//@ func (*ModuleValuedPolynomial).Coefficients
+//@   property C20
+//@   purefn
+//@   ensures result == p.coeffs
